@@ -376,6 +376,18 @@ fn main() {
     let mut lines = inp.lines();
     let cfgv: Value = serde_json::from_str(&lines.next().unwrap().unwrap()).unwrap();
     let cfg = parse_cfg(&cfgv);
+    // the hop count the comparator uses, per attribute class (C02: AS_SET counts one, confed segments zero)
+    {
+        let mut m = serde_json::Map::new();
+        for (k, attrs) in &cfg.classes {
+            let n = catch_unwind(AssertUnwindSafe(|| {
+                attrs.iter().find(|a| a.code() == Attribute::AS_PATH).map(|a| a.as_path_length() as i64).unwrap_or(0)
+            }))
+            .unwrap_or(-1);
+            m.insert(k.clone(), json!(n));
+        }
+        writeln!(out, "CLASSES {}", Value::Object(m)).unwrap();
+    }
     let mut w = new_world(&cfg);
     let mut dead = false;
     for line in lines {
